@@ -15,6 +15,14 @@ import (
 // independent of local names and source positions.
 func (p *Program) Desc(v ssa.Value, fr *Frame) string { return p.desc(v, fr, 0) }
 
+// DescQ is Desc with field loads qualified by the object they are read from
+// ("fld:T.f@(base)"), so that equal strings denote the same memory location.
+func (p *Program) DescQ(v ssa.Value, fr *Frame) string {
+	p.qual = true
+	defer func() { p.qual = false }()
+	return p.desc(v, fr, 0)
+}
+
 func (p *Program) desc(v ssa.Value, fr *Frame, d int) string {
 	if d > 10 {
 		return "…"
@@ -36,28 +44,31 @@ func (p *Program) desc(v ssa.Value, fr *Frame, d int) string {
 		return "param:" + x.Name()
 	case *ssa.FreeVar:
 		if b := closureBinding(x); b != nil {
-			return "&" + p.cellDesc(b, d+1)
+			return "&" + p.cellDesc(b, fr, d+1)
 		}
 		return "fv:" + x.Name()
 	case *ssa.Global:
 		return "&glob:" + x.Pkg.Pkg.Name() + "." + x.Name()
 	case *ssa.Alloc:
-		return "&" + p.cellDesc(x, d+1)
+		return "&" + p.cellDesc(x, fr, d+1)
 	case *ssa.UnOp:
 		switch x.Op {
 		case token.MUL:
 			switch a := x.X.(type) {
 			case *ssa.FieldAddr:
 				if fr2, ok := fieldRefOf(a); ok {
+					if p.qual {
+						return "fld:" + fr2.Key() + "@(" + p.desc(a.X, fr, d+1) + ")"
+					}
 					return "fld:" + fr2.Key()
 				}
 			case *ssa.Global:
 				return "glob:" + a.Pkg.Pkg.Name() + "." + a.Name()
 			case *ssa.Alloc:
-				return p.cellDesc(a, d+1)
+				return p.cellDesc(a, fr, d+1)
 			case *ssa.FreeVar:
 				if b := closureBinding(a); b != nil {
-					return p.cellDesc(b, d+1)
+					return p.cellDesc(b, fr, d+1)
 				}
 				return "fv:" + a.Name()
 			case *ssa.IndexAddr:
@@ -151,16 +162,19 @@ func (p *Program) desc(v ssa.Value, fr *Frame, d int) string {
 
 // cellDesc describes the contents of a local variable cell: the single value stored into it, or
 // the set of values when there are several stores.
-func (p *Program) cellDesc(cell ssa.Value, d int) string {
+func (p *Program) cellDesc(cell ssa.Value, fr *Frame, d int) string {
 	a, ok := cell.(*ssa.Alloc)
 	if !ok {
 		return p.desc(cell, nil, d)
+	}
+	if fr != nil && fr.Fn != a.Parent() {
+		fr = nil // the cell belongs to an enclosing function that is not on the inlining stack
 	}
 	var vals []string
 	if refs := a.Referrers(); refs != nil {
 		for _, r := range *refs {
 			if st, ok := r.(*ssa.Store); ok && st.Addr == a {
-				vals = append(vals, p.desc(st.Val, nil, d+1))
+				vals = append(vals, p.desc(st.Val, fr, d+1))
 			}
 		}
 	}
